@@ -29,8 +29,9 @@ EXTRA = ['range_int', 'range_float', 'vol_int', 'vol_str', 'vol_tuple', 'vol_lis
 
 
 def expressions(tier):
-    # (dc_baddef: a fixture whose own default is not a value of its field's type - it has no typed values to be fixed points)
-    out = [e for e in grammar.expressions(tier) if 'dc_baddef' not in e1.leaves_of(e)]
+    # (dc_baddef: a fixture whose own default is not a value of its field's type - it has no typed values to be fixed points;
+    #  dc_setpost: a fixture whose hook refuses the field its own output always carries)
+    out = [e for e in grammar.expressions(tier) if not ({'dc_baddef', 'dc_setpost'} & e1.leaves_of(e))]
     for leaf in EXTRA:
         out.append(leaf)
         for c in ('list', 'optional', 'tuplevar'):
